@@ -873,9 +873,17 @@ impl endpoint::Session for Session {
 
             let chunk_inds = consecutive_chunk_indices(&delivery_ids[..]);
 
-            let mut dispositions = Vec::with_capacity(chunk_inds.len());
+            let mut dispositions = Vec::with_capacity(chunk_inds.len() + 1);
             let mut prev_ind = 0;
-            for ind in chunk_inds {
+            // The chunk indices only mark where a new run of consecutive ids starts;
+            // the last run ends at the end of the slice
+            for ind in chunk_inds
+                .into_iter()
+                .chain(std::iter::once(delivery_ids.len()))
+            {
+                if ind == prev_ind {
+                    continue;
+                }
                 let slice = &delivery_ids[prev_ind..ind];
                 let disposition = Disposition {
                     role: Role::Sender,
